@@ -11,9 +11,11 @@ package ast
 //@ ufunc endOf(n Node) token.Pos
 //@
 //@ interface Node.Pos
+//@   option abstract yes
 //@   pure
 //@   ensures result == posOf(this)
 //@ interface Node.End
+//@   option abstract yes
 //@   pure
 //@   ensures result == endOf(this)
 //@
